@@ -80,6 +80,18 @@ impl Monitor for Mon {
                         let own_renewal = chain.contains(m.id()) && m.state() == State::Down;
                         ensure!(own_renewal, "C15:enqueued-with-broadcast-disabled", "apply_many(.., do_broadcast=false, ..) queued {:?} for dissemination", m);
                     }
+                    // an instance that is Defunct (it left, or was declared down) already had its identity's
+                    // death accepted for dissemination - by itself when leaving, by its peers otherwise;
+                    // moving on to another identity must not give that same change a second full budget
+                    if let (Call::ChangeIdentity(_), 2) = (&rec.call, rec.before.conn()) {
+                        ensure!(
+                            !(m.state() == State::Down && *m.id() == rec.before.identity),
+                            "C15:dead-identity-declared-down-again",
+                            "change_identity on a Defunct instance queued {:?} again with a fresh budget of {} transmissions",
+                            m,
+                            self.max_tx
+                        );
+                    }
                     if let Some(old) = self.acct.get(&m.id().addr) {
                         if old.remaining > 0 && old.remaining < old.max {
                             self.replaced_midway += 1;
@@ -239,7 +251,7 @@ pub fn run(ctx: &Ctx, report: &mut Report) -> EvidenceMeta {
     ctx.run_part(&part_long_tx(), report);
     EvidenceMeta {
         level: "exploration",
-        rule: "proptest random single-instance histories (apply_many with do_broadcast true/false, datagrams with update sections, probe timers acked or not so that Suspect/Down updates are produced internally, leave_cluster, change_identity, renewals, set_config changing max_transmissions, emissions of every kind) with max_transmissions 1..11 and 200..254, packet sizes from 'one update barely fits' (18..40 bytes) to 1400, fixed-size (FixCodec), variable-size (VarCodec) and postcard updates. Oracle: an accountant {address -> (bytes, transmissions left)} driven by the hook's ordered log of accepted updates and sends: every member entry of a piggybacking datagram must be byte-identical to a distinct pending entry and costs it one transmission (removed at 0); every pending entry left out must not have fit when its turn came (len > free bytes after the member section + bytes of included entries with fewer transmissions left); Feed/Announce/TurnUndead/Broadcast leave the accountant alone; after every call updates_backlog() and the real (bytes, remaining) multiset equal the accountant's; apply_many with broadcasting disabled enqueues nothing. Non-trivial: a datagram that had to omit a pending update, or an update superseded while partly transmitted; distinct = (event, kind, #included, #omitted, max_transmissions)."
+        rule: "proptest random single-instance histories (apply_many with do_broadcast true/false, datagrams with update sections, probe timers acked or not so that Suspect/Down updates are produced internally, leave_cluster, change_identity, renewals, set_config changing max_transmissions, emissions of every kind) with max_transmissions 1..11 and 200..254, packet sizes from 'one update barely fits' (18..40 bytes) to 1400, fixed-size (FixCodec), variable-size (VarCodec) and postcard updates. Oracle: an accountant {address -> (bytes, transmissions left)} driven by the hook's ordered log of accepted updates and sends: every member entry of a piggybacking datagram must be byte-identical to a distinct pending entry and costs it one transmission (removed at 0); every pending entry left out must not have fit when its turn came (len > free bytes after the member section + bytes of included entries with fewer transmissions left); Feed/Announce/TurnUndead/Broadcast leave the accountant alone; after every call updates_backlog() and the real (bytes, remaining) multiset equal the accountant's; apply_many with broadcasting disabled enqueues nothing; change_identity on a Defunct instance does not queue Down(previous identity) a second time. Non-trivial: a datagram that had to omit a pending update, or an update superseded while partly transmitted; distinct = (event, kind, #included, #omitted, max_transmissions)."
             .into(),
         assumptions: vec![
             "which updates Foca accepted for dissemination, and the per-entry transmissions left, are read through the verif-hooks event log / snapshot".into(),
